@@ -39,6 +39,27 @@ theorem C20_offsets_run (env : Env) (evs : List Event) :
   · unfold retrieval; omega
   · unfold SIGNING at r3; omega
 
+/-- Offsets, both sides, along runs (the aggregator starts without registrations): every signature the
+aggregator received was made in chain epoch `E` = the epoch of the epoch data in force, `E` is not ahead of
+the aggregator, the signing key is in the aggregator's OWN signer list for `E` — the registrations it recorded
+under `E − 1` (RETRIEVAL), a list that is closed since the aggregator left epoch `E − 2` — and that key is the
+one the signer stored when it registered while the aggregator announced `E − 2` (`E − 2 + RECORDING = E +
+RETRIEVAL`, `SIGNER_SIGNING_OFFSET = 2` on both sides). -/
+theorem C20_offsets_both_sides (env : Env) (evs : List Event) (h : env.aggReg = []) :
+    ∀ p ∈ (run (initState env) evs).pubs,
+      p.aggEpoch = p.chainEpoch ∧ p.chainEpoch ≤ (run (initState env) evs).env.aggEpoch ∧
+      (⟨0, p.key⟩ : Reg) ∈ regsFor (run (initState env) evs).env.aggReg (retrieval p.chainEpoch) ∧
+      ∃ q ∈ (run (initState env) evs).saved,
+        q.key = p.key ∧ q.recEpoch = recording q.aggEpoch ∧ q.recEpoch = retrieval p.chainEpoch ∧
+        p.chainEpoch = q.aggEpoch + SIGNING := by
+  intro p hp
+  obtain ⟨r, a⟩ := run_reg_agg evs (initState env) (initState_reg env) (initState_agg env h)
+  obtain ⟨a1, a2, a3⟩ := a.pubsAgg p hp
+  obtain ⟨q, hq, r1, r2, r3⟩ := r.pubsKey p hp
+  have r4 := r.savedRec q hq
+  refine ⟨a1, by omega, by rw [← a1]; exact a3, q, hq, r1, r4, ?_, by omega⟩
+  unfold retrieval; omega
+
 /-- Never before registered: in any reachable state, an event that makes the aggregator receive a signature
 is a tick in `ReadyToSign`, with epoch data whose protocol initializer exists, was stored under the
 retrieval epoch (epoch − 1) by a registration recorded under aggregator epoch + 1, and whose key is in
